@@ -110,7 +110,22 @@ def gen_vtu_case(rng, name_pool=None):
                                "bits": rand_bits(rng, dt, len(rows) * prodl(tail), rng.randint(1, 1000))})
     tags = dict(tags)
     tags["ntypes"] = len(case["cells"])
+    # memory layout of the arrays handed to the library: same logical content, C-contiguous / Fortran order /
+    # transposed view (the writer must serialise the LOGICAL row-major order whatever the strides are)
+    case["layout"] = rng.choice(["C", "C", "F", "T"])
+    tags["layout"] = case["layout"]
     return case, tags
+
+
+def relayout(a: np.ndarray, lay: str) -> np.ndarray:
+    """same shape, dtype and logical entries; different strides"""
+    if a.ndim < 2 or a.size == 0 or lay == "C":
+        return a
+    if lay == "F":
+        return np.asfortranarray(a)
+    axes = list(range(a.ndim))
+    axes[-1], axes[-2] = axes[-2], axes[-1]
+    return np.ascontiguousarray(a.transpose(axes)).transpose(axes)
 
 
 def to_obj(case):
@@ -121,11 +136,14 @@ def to_obj(case):
     for t, rows in case["cells"]:
         k = len(rows[0]) if rows else (meshgen.NCORNERS.get(t) or 0)
         conn.append((CellType.from_name(t), np.array(rows, dtype=np.dtype(case["conntype"])).reshape(len(rows), k)))
+    lay = case.get("layout", "C")
+    pts = relayout(pts, lay)
+    conn = [(ct, relayout(c, lay)) for ct, c in conn]
     mesh = Mesh(pts, conn)
-    pd = {f["name"]: arr_of(f["dt"], [f["rows"]] + f["tail"], f["bits"]) for f in case["pf"]}
+    pd = {f["name"]: relayout(arr_of(f["dt"], [f["rows"]] + f["tail"], f["bits"]), lay) for f in case["pf"]}
     cd = {}
     for f in case["cf"]:
-        cd.setdefault(f["name"], {})[f["ctype"]] = arr_of(f["dt"], [f["rows"]] + f["tail"], f["bits"])
+        cd.setdefault(f["name"], {})[f["ctype"]] = relayout(arr_of(f["dt"], [f["rows"]] + f["tail"], f["bits"]), lay)
     cdl = {n: [per[t] for t, _ in case["cells"]] for n, per in cd.items()}
     return MeshFields(mesh, pd, cdl)
 
